@@ -64,22 +64,27 @@ func coqOpt(s string, ok bool) string {
 // ---------------------------------------------------------------- ops
 
 type Op struct {
-	Kind   string          `json:"kind"`
-	Opi    int             `json:"opi,omitempty"`
-	Pod    int             `json:"pod,omitempty"`
-	Node   int             `json:"node,omitempty"`
-	Count  int             `json:"count,omitempty"`
-	CPU    int64           `json:"cpu,omitempty"` // 1/100 core
-	Mem    int64           `json:"mem,omitempty"`
-	IDs    []string        `json:"ids,omitempty"` // canonical ids
-	Force  bool            `json:"force,omitempty"`
-	Bypass int             `json:"bypass,omitempty"` // 0 keep 1 true 2 false
-	Delta  bool            `json:"delta,omitempty"`
-	SetMem bool            `json:"set_mem,omitempty"`
-	Stdin  bool            `json:"stdin,omitempty"`
-	Bind   bool            `json:"bind,omitempty"` // cpu-bind request: each instance owns its cores
-	Script cw.LambdaScript `json:"script,omitempty"`
-	Lines  int             `json:"lines,omitempty"`
+	Kind   string   `json:"kind"`
+	Opi    int      `json:"opi,omitempty"`
+	Pod    int      `json:"pod,omitempty"`
+	Node   int      `json:"node,omitempty"`
+	Count  int      `json:"count,omitempty"`
+	CPU    int64    `json:"cpu,omitempty"` // 1/100 core
+	Mem    int64    `json:"mem,omitempty"`
+	IDs    []string `json:"ids,omitempty"` // canonical ids
+	Force  bool     `json:"force,omitempty"`
+	Bypass int      `json:"bypass,omitempty"` // 0 keep 1 true 2 false
+	Delta  bool     `json:"delta,omitempty"`
+	SetMem bool     `json:"set_mem,omitempty"`
+	Stdin  bool     `json:"stdin,omitempty"`
+	Bind   bool     `json:"bind,omitempty"` // cpu-bind request: each instance owns its cores
+	// lambda: the caller's context is cancelled right before the first call of this method (client went away / async timeout)
+	CancelAt string `json:"cancel_at,omitempty"`
+	// lambda: drive the call through rpc.Vibranium.RunAndWait with a server stream whose Send fails from this message on (0 = never; -1 = do not use the rpc layer)
+	RPCSendFailFrom int             `json:"rpc_send_fail_from,omitempty"`
+	RPC             bool            `json:"rpc,omitempty"`
+	Script          cw.LambdaScript `json:"script,omitempty"`
+	Lines           int             `json:"lines,omitempty"`
 	// filled after the run
 	Plan     [][2]int `json:"plan,omitempty"` // (node, count) in the order the condition step visited them
 	PlanNone bool     `json:"plan_none,omitempty"`
@@ -450,7 +455,21 @@ func (d *driver) run(o Op, f *FaultSpec) *StepObs {
 		}
 	case "lambda":
 		var ch <-chan *types.AttachWorkloadMessage
-		_, ch, err = w.C.RunAndWait(ctx, d.deployOpts(&o), nil)
+		lctx, lcancel := context.WithCancel(ctx)
+		defer lcancel()
+		if o.CancelAt != "" {
+			w.IC.Probe = func(c cw.Call) {
+				if !c.Bg && c.Method == o.CancelAt {
+					lcancel()
+				}
+			}
+			defer func() { w.IC.Probe = nil }()
+		}
+		if o.RPC {
+			ch, err = d.runAndWaitRPC(lctx, &o)
+		} else {
+			_, ch, err = w.C.RunAndWait(lctx, d.deployOpts(&o), nil)
+		}
 		if err == nil {
 		loopl:
 			for {
@@ -1030,8 +1049,6 @@ func okFn(prop string) string {
 	}
 	return "Run.ok_c10"
 }
-
-var _ = context.Background
 
 // ---- exported entry points for the other drivers of this world (harness/c30)
 
